@@ -180,7 +180,12 @@ func (h *seqHarness) bulkLoad(prefix string, n int) bool {
 	for i := 0; i < n; i += 50 {
 		req := &proto.WriteRequest{}
 		for j := i; j < i+50 && j < n; j++ {
-			req.Puts = append(req.Puts, &proto.PutRequest{Key: fmt.Sprintf("%s%04d", prefix, j), Value: h.nextValue()})
+			put := &proto.PutRequest{Key: fmt.Sprintf("%s%04d", prefix, j), Value: h.nextValue()}
+			if j%3 != 0 {
+				// most bulk records declare an index entry: a large delete range must clean those up too
+				put.SecondaryIndexes = []*proto.SecondaryIndex{{IndexName: idxNames[j%len(idxNames)], SecondaryKey: idxKeys[j%len(idxKeys)]}}
+			}
+			req.Puts = append(req.Puts, put)
 		}
 		if _, _, ok := h.step(req); !ok {
 			return false
